@@ -205,38 +205,35 @@ func rangeArithmeticRules(r *Report, name string, f *ssa.Function) {
 
 	// an open-ended range "N-" is completed with the last position of the content
 	okOpen := false
-	for _, c := range plainCalls(f, "fmt.Sprintf") {
-		if format, isK := constString(c.Call.Args[0]); !isK || format != "%s%d" {
-			continue
-		}
-		ops := concatOperands(c)
-		if len(ops) != 2 {
-			continue
-		}
-		ev := &miniEval{leaf: func(v ssa.Value) (int64, bool) {
-			if isSize(v) {
-				return S, true
+	for _, sc := range plainCalls(f, "strings.Split") {
+		for _, cand := range resolveAll(sc.Call.Args[0]) {
+			ops := concatOperands(cand)
+			if len(ops) < 2 {
+				continue
 			}
-			return 0, false
-		}}
-		got, ok := ev.Int(unwrapIfaceInt(ops[1]))
-		guarded := false
-		for _, ce := range ctrlEdges(c.Block()) {
-			if isCallValue(ce.If.Cond, "strings.HasSuffix") && ce.Taken {
-				guarded = true
+			last := unwrapIfaceInt(ops[len(ops)-1])
+			// the number may be formatted first: strconv.Itoa / FormatInt
+			if c, isC := last.(*ssa.Call); isC && (calleeName(c) == "strconv.Itoa" || calleeName(c) == "strconv.FormatInt") {
+				last = c.Call.Args[0]
 			}
-		}
-		// and the completed text is what gets split
-		used := false
-		for _, sc := range plainCalls(f, "strings.Split") {
-			for _, l := range resolveAll(sc.Call.Args[0]) {
-				if l == ssa.Value(c) {
-					used = true
+			ev := &miniEval{leaf: func(v ssa.Value) (int64, bool) {
+				if isSize(v) {
+					return S, true
+				}
+				return 0, false
+			}}
+			got, ok := ev.Int(last)
+			guarded := false
+			if ci, isI := cand.(ssa.Instruction); isI {
+				for _, ce := range ctrlEdges(ci.Block()) {
+					if isCallValue(ce.If.Cond, "strings.HasSuffix") && ce.Taken {
+						guarded = true
+					}
 				}
 			}
-		}
-		if ok && got == S-1 && guarded && used {
-			okOpen = true
+			if ok && got == S-1 && guarded {
+				okOpen = true
+			}
 		}
 	}
 	r.Decide("flow", key("an open-ended range is completed with size-1"), okOpen, "on the HasSuffix(\"-\") edge the text becomes first-(size-1) and that text is parsed", "a range of the form \"N-\" is not completed with the last position of the content: it is refused as malformed or served short", f.Pos())
